@@ -53,7 +53,7 @@ package log
 //@   modifies ghost:nextCalls, URL.Path, URL.RawPath, URL.RawQuery
 //@   ensures [next_once] nextCalls == old(nextCalls) + 1
 //@   ensures [only_this_requests_url] unchanged_except("URL.Path", r.URL) && unchanged_except("URL.RawPath", r.URL) && unchanged_except("URL.RawQuery", r.URL)
-//@   ensures [a_panic_below_is_answered_as_500] panicked == 1 ==> (status == 500 && err == nil)
+//@   ensures [a_panic_below_is_answered_as_500] panicked == 1 ==> (result0 == 500 && result1 == nil)
 //@ func (Logger).ServeHTTP
 //@   // only a request outside every rule's path scope is handed on directly (no recorder, no line: out of scope by
 //@   // configuration); a panic there still leaves through this handler - with no line owed
